@@ -61,4 +61,16 @@ def userMaxAbs : VCombiner where
   finish a := match a with | .cons c _ => c | _ => .none
   build xs := xs.foldl maxAbsAdd .nil
 
+/-- round 5 — "last value seen" (`pipe_ucomb::Last`, accumulator `Option<V>`): `add_input` overwrites, `merge` takes
+    the other side when it has seen anything. LAWFUL (`Props/C05.lean::lawful_uLast`) but NOT commutative
+    (`uLast_not_commutative`): the answer is the last value in the order the engine merges, which is source order. -/
+def lastAdd (_acc v : Val) : Val := .some v
+
+def userLast : VCombiner where
+  create := .none
+  add := lastAdd
+  merge a b := match b with | .some v => lastAdd a v | _ => a
+  finish a := match a with | .some v => v | _ => .none
+  build xs := xs.foldl lastAdd .none
+
 end IB
